@@ -9,6 +9,7 @@ import (
 	"go/constant"
 	"go/token"
 	"go/types"
+	"golang.org/x/tools/go/cfg"
 	"sort"
 	"strconv"
 	"strings"
@@ -54,6 +55,7 @@ func c02(c *Ctx) {
 	c03R2(c)
 	ruleCASPublication(c, "C02.R8", "Node", map[string]string{"Finalizers": "removed on deletion; no assignment is decided on it"})
 	itemIndependent(c, "C02.R7", [][3]string{{nodeCtlPkg, "ReconcileNode.getPods", "one request per pod"}})
+	c02R12(c)
 }
 
 func c02R1(c *Ctx) {
@@ -406,6 +408,22 @@ func c02Binds(c *Ctx) {
 			bq.ToBlock = loopHead(inner)
 			w := bq.Escapes(isExactly(lookup), func(ast.Node) bool { return false }, isExactly(s.Node), nil)
 			c.Check(w == nil, "C02.R4", "buildIPMap links every address recorded for a live pod ("+famRef+")", p.Pos(s.Node), build.Key(), "whenever the lookup succeeds the reference is set (no extra condition)", "path that skips the link although the pod exists: "+p.describePath(w))
+			// … of every interface of the record: no iteration over the interfaces gets to the next one
+			// without walking this family's addresses (an interface that is skipped — not yet attached,
+			// being detached — keeps its bindings in the record, and its pods look unbound)
+			var outer *ast.RangeStmt
+			for _, nd := range pathTo(build.Decl.Body, inner) {
+				if rs, ok := nd.(*ast.RangeStmt); ok && rs != inner {
+					outer = rs
+				}
+			}
+			if outer != nil {
+				oq := NewPathQuery(p, build, nil)
+				oq.FromBlock = func(b *cfg.Block) bool { return b.Stmt == outer && b.Kind == cfg.KindRangeBody }
+				oq.ToBlock = loopHead(outer)
+				w2 := oq.Escapes(nil, func(ast.Node) bool { return false }, isExactly(inner.X), nil)
+				c.Check(w2 == nil, "C02.R4", "buildIPMap walks "+want+" of every interface", p.Pos(inner), build.Key(), "every iteration over the interfaces ranges over <interface>."+want, "an interface can be skipped: "+p.describePath(w2))
+			}
 		}
 	}
 	c.Floor("C02.R4", "reference links in buildIPMap", 2, links)
@@ -968,4 +986,47 @@ func c02R11(c *Ctx) {
 	if n == 0 {
 		c.OK("C02.R11", "whole-status stores of the node record", "", "", "none outside composite literals")
 	}
+}
+
+// R12: a pod that becomes a request carries the addresses it reports. The allocator adopts a reported
+// address the record has no binding for (take-over after an upgrade, a lost status, a rebuild from the
+// cloud); a request built without them makes the pod look new — it is bound to some other free address
+// and the one it really uses stays free for the next pod.
+func c02R12(c *Ctx) {
+	p := c.P
+	c.Rule("C02.R12", "getPods: every path that builds a pod's request passes the reads of pod.Status.PodIP and pod.Status.PodIPs (whatever the pod's phase: the only phase test is the one that skips the pod altogether)")
+	fn := p.Func(nodeCtlPkg, "ReconcileNode.getPods")
+	if fn == nil {
+		c.Unres("C02.R12", "ReconcileNode.getPods", "not found")
+		return
+	}
+	info := fn.Info()
+	isReq := containsNode(func(m ast.Node) bool {
+		cl, ok := m.(*ast.CompositeLit)
+		return ok && typeIs(info.TypeOf(cl), modPath+"/"+nodeCtlPkg, "PodRequest")
+	})
+	n := 0
+	for _, field := range []string{"PodIP", "PodIPs"} {
+		field := field
+		reads := containsNode(func(m ast.Node) bool {
+			sel, ok := m.(*ast.SelectorExpr)
+			return ok && sel.Sel.Name == field && typeIs(info.TypeOf(sel.X), "k8s.io/api/core/v1", "PodStatus")
+		})
+		found := false
+		ast.Inspect(fn.Decl.Body, func(m ast.Node) bool {
+			if sel, ok := m.(*ast.SelectorExpr); ok && sel.Sel.Name == field && typeIs(info.TypeOf(sel.X), "k8s.io/api/core/v1", "PodStatus") {
+				found = true
+			}
+			return true
+		})
+		if !found {
+			c.Bad("C02.R12", "getPods reads pod.Status."+field, p.Pos(fn.Decl), fn.Key(), "the reported addresses are handed to the allocator", "no read of pod.Status."+field)
+			continue
+		}
+		n++
+		q := NewPathQuery(p, fn, nil)
+		w := q.Escapes(nil, isReq, reads, nil)
+		c.Check(w == nil, "C02.R12", "every request carries pod.Status."+field, p.Pos(fn.Decl), fn.Key(), "must-pass: entry → read of pod.Status."+field+" → &PodRequest{…}", "a request is built on a path that does not read it: "+p.describePath(w))
+	}
+	c.Floor("C02.R12", "reported-address fields read in getPods", 2, n)
 }
